@@ -23,8 +23,21 @@ AVOID5 = {'C02': 'the rep/bkrep bookkeeping or the second-word fetch in Interpre
           'C18': 'RestoreBlockRepeat, ConvertDataAddress, Ahbm::Channel::GetBurstSize or the arp pseudo-register slots', 'C19': 'DataChannel::Recv, DataChannel::Send, Apbp::SetSemaphore or ICU::Trigger',
           'C14': 'Apbp::SetSemaphore, ClearSemaphore, MaskSemaphore or DataChannel::Send', 'C15': 'Timer::Skip, GetMaxSkip, TickEvent or the pause test in Timer::Tick', 'C16': 'Btdmp::Skip, SetTransmitFlush, Send or the enable test in Btdmp::Tick',
           'C01': 'StepAddress, Exp or max_gt', 'C03': 'AddSub, SatAndSetAccAndFlag or alm(Register)', 'C04': 'ShiftBus40, DoMultiplication or Exp', 'C10': 'StepAddress, the epi/epj test in RnAndModify or the mma addressing', 'C20': 'the arp slots, AccEProxy, the st2 slots or load_stepj'}
+AVOID6 = {'C01': 'StepAddress, Exp, max_gt or the modr family', 'C03': 'AddSub, SatAndSetAccAndFlag, alm(Register) or SetAccFlag', 'C04': 'ShiftBus40, DoMultiplication or Exp',
+          'C05': 'Teakra_Disasm_Do, Disassembler::Do, the mma_my_my renderer, DsmArRn or the loop bounds of GenerateParser',
+          'C06': 'Timer::Skip, CoreTiming::Skip, Btdmp::Skip, the idle flag handling at interrupt entry or the zero-length-skip tick in Interpreter::Run',
+          'C07': 'the latch sampling or interrupt_handled in Interpreter::Run, ICU::Trigger, ICU::Acknowledge or the st2 pseudo-register',
+          'C08': 'banke, ContextStore, pop(Abe), push(Register) or the shadowed flag list in register.h', 'C09': 'RestoreBlockRepeat, StoreBlockRepeat, the block-end test in Interpreter::Run, rep(Register) or RegisterState::Lc',
+          'C10': 'StepAddress, the epi/epj test in RnAndModify or the mma addressing', 'C11': 'MemoryInterfaceUnit::InMMIO, MemoryInterface::ProgramRead/ProgramWrite/DataReadA32, Teakra::DataWrite or movd',
+          'C12': 'MemoryInterfaceUnit::ToMMIO/InMMIO, Cell::BitFieldCell, Dma::ActivateChannel or MemoryInterface::MMIORead/MMIOWrite',
+          'C13': 'Dma::Channel::Start, the counter0 limit, destination alignment mask and dimension-2 step in Dma::Channel::Tick, or Ahbm::Write16',
+          'C16': 'Btdmp::Skip, SetTransmitFlush, Send or the enable test in Btdmp::Tick', 'C17': 'Timer::Reset, Ahbm::Reset, Btdmp::Reset, Teakra::Impl::Reset or the SharedMemory constructor',
+          'C18': 'RestoreBlockRepeat, ConvertDataAddress, Ahbm::Channel::GetBurstSize, Ahbm::GetChannelForDma or the arp pseudo-register slots',
+          'C20': 'the arp slots, AccEProxy, the st2 slots or load_stepj', 'C02': 'Interpreter::Run, GetDecoderTable, MatcherCreator or parser.cpp',
+          'C14': 'Apbp::SetSemaphore, ClearSemaphore, MaskSemaphore or DataChannel::Send', 'C15': 'Timer::Skip, GetMaxSkip, TickEvent or the pause test in Timer::Tick',
+          'C19': 'DataChannel::Recv, DataChannel::Send, Apbp::SetSemaphore, ICU::Trigger or Interpreter::Run'}
 rnd = sys.argv[1]
-AVOID = AVOID5 if rnd == '5' else AVOID4 if rnd == '4' else (AVOID3 if rnd == '3' else AVOID2)
+AVOID = AVOID6 if rnd == '6' else AVOID5 if rnd == '5' else AVOID4 if rnd == '4' else (AVOID3 if rnd == '3' else AVOID2)
 ids = sys.argv[2:]
 os.makedirs('/tmp/scratch', exist_ok=True)
 for l in open('/verif/properties.jsonl'):
